@@ -203,6 +203,8 @@ pub struct EvidenceInput<'a> {
     pub real: Vec<&'a str>,
     pub stubs: Vec<&'a str>,
     pub exhaustive: bool,
+    /// what one 'evaluation' is: a run (history / process run) or an attempt inside a run
+    pub evaluations_are_steps: bool,
     pub extra: Value,
 }
 
@@ -214,7 +216,7 @@ pub fn write_evidence(e: EvidenceInput) {
     let distinct = s.fingerprints.len() as u64 + s.weighted_distinct.values().sum::<u64>();
     let per_hour = if e.wall_s > 0.0 { (s.runs as f64 / e.wall_s * 3600.0) as u64 } else { 0 };
     let mut coverage = json!({
-        "evaluations": s.runs,
+        "evaluations": if e.evaluations_are_steps { s.steps } else { s.runs },
         "distinct_nontrivial": distinct,
         "distinct_nontrivial_is_lower_bound": s.fingerprints_capped,
         "rule": e.rule,
